@@ -8,6 +8,8 @@ Python MA entries are `rx:tx` pairs.
   hop.pypnm N                                   -> PNM | EXC <class>            HoppingParams(1, 0, N entries)._pnm
   hop.freq  FH HSN MAIO FN MA RX0 TX0           -> init=<ok|EXC:c|-> rx=<v|None|EXC:c> tx=<…>
                                                    Transceiver: [enable_fh if FH≥1], [disable_fh if FH=2], get_rx_freq(fn), get_tx_freq(fn)
+  hop.seq   RX0 TX0 | op ; op ; …                -> one answer token per op: one Transceiver lives through the sequence;
+                                                   E HSN MAIO MA -> ok|EXC:c    D -> -    Q FN -> rx/tx
   hop.fw    TYPE H SERV H0 FN T1 T2 T3 HSN MAIO N MA
                                                 -> ok ARFCN | oob-rn IDX | oob-ma MAI | divzero     rfch_get_params
   hop.fwfn  HSN MAIO N FN MA                    -> same; gsm_fn2gsmtime(fn) then rfch_get_params (type TCH_F, h = 1)
@@ -49,12 +51,42 @@ def renderFwInt : Except FwFault Int → String
   | .error (.oobMa i) => s!"oob-ma {i}"
   | .error .divZero => "divzero"
 
+/-- split a token list at the `;` tokens -/
+def splitOps (toks : List String) : List (List String) :=
+  let (cur, acc) := toks.foldl (fun (st : List String × List (List String)) t =>
+    if t = ";" then ([], st.1.reverse :: st.2) else (t :: st.1, st.2)) ([], [])
+  (cur.reverse :: acc).reverse
+
 def renderFreq : Except PyExc (Option Int) → String
   | .ok (some v) => toString v
   | .ok none => "None"
   | .error e => "EXC:" ++ excName e
 
+/-- one operation of a `hop.seq` history on one transceiver -/
+def seqOp (trx : Trx) : List String → Option (Trx × String)
+  | ["E", hsn, maio, ma] => do
+      let hsn ← parseInt? hsn; let maio ← parseInt? maio; let ma ← parsePairList? ma
+      match trx.enableFh hsn maio ma with
+      | .ok t => pure (t, "ok")
+      | .error e => pure (trx, "EXC:" ++ excName e)
+  | ["D"] => pure (trx.disableFh, "-")
+  | ["Q", fn] => do
+      let fn ← parseNat? fn
+      pure (trx, s!"{renderFreq (trx.getRxFreq fn)}/{renderFreq (trx.getTxFreq fn)}")
+  | _ => none
+
+def seqRun (trx : Trx) : List (List String) → Option (List String)
+  | [] => some []
+  | op :: rest => do
+      let (t, a) ← seqOp trx op
+      let as ← seqRun t rest
+      pure (a :: as)
+
 def handle : List String → Option String
+  | "hop.seq" :: rx0 :: tx0 :: "|" :: ops => do
+      let rx0 ← parseOptInt? rx0; let tx0 ← parseOptInt? tx0
+      let res ← seqRun { fh := none, rxFreq := rx0, txFreq := tx0 } (splitOps ops)
+      pure (" ".intercalate res)
   | ["hop.py", hsn, maio, fn, ma] => do
       let hsn ← parseInt? hsn; let maio ← parseInt? maio; let fn ← parseNat? fn
       let ma ← parsePairList? ma
